@@ -301,6 +301,11 @@ class Interp:
             v = s.value
             if isinstance(v, Aff):
                 return v
+            if isinstance(v, Tup):
+                if len(rest) == 1 and isinstance(rest[0], Aff) and rest[0].is_const() and -len(v.items) <= rest[0].c < len(v.items):
+                    item = v.items[rest[0].c]
+                    return item if isinstance(item, Aff) else self.scalar(st, item)
+                return self.fresh("unk")
             if isinstance(v, View):
                 new_idx: List[Any] = []
                 fi = 0
@@ -543,7 +548,7 @@ class Interp:
         if isinstance(tgt, View):
             if isinstance(v, Dual):
                 v = v.snap if isinstance(v.snap, Aff) and not (isinstance(v.snap.single_atom(), tuple) and v.snap.single_atom()[0] == "agg") else v.view
-            val = v if isinstance(v, (Aff, View)) else self.scalar(st, v)
+            val = v if isinstance(v, (Aff, View, Tup)) else self.scalar(st, v)
             self.store(st, tgt, val, node)
         elif isinstance(tgt, AttrVal):
             self.ev(st, "store", node, root=repr(tgt), idx=(), value=v)
@@ -795,7 +800,10 @@ class Interp:
     def e_Tuple(self, e: ast.Tuple, st: State):
         return [(s, Tup(tuple(vs))) for s, vs in self.eval_list(e.elts, st)]
 
-    e_List = e_Tuple
+    def e_List(self, e: ast.List, st: State):
+        if not e.elts:
+            return [(st, self.fresh_root("list", ("list",)))]  # a mutable, initially empty python list
+        return self.e_Tuple(e, st)  # type: ignore[arg-type]
 
     def e_JoinedStr(self, e: ast.JoinedStr, st: State):
         return [(st, Aff.atom(("fstr", getattr(e, "lineno", 0))))]
@@ -1192,6 +1200,7 @@ class Interp:
                 op = ">=" if nm == "max" else "<="
                 st.facts.add(cmp_cond(op, r, a))
                 st.facts.add(cmp_cond(op, r, b))
+                st.facts.add(("or", cmp_cond("==", r, a), cmp_cond("==", r, b)))
             return [(st, r)]
         if nm == "range":
             xs = [self.scalar(st, a) for a in args]
@@ -1240,7 +1249,11 @@ class Interp:
 
     def call_method(self, recv: Any, meth: str, args: List[Any], kwargs, st: State, node: ast.Call) -> List[Tuple[State, Any]]:
         recv = as_view(recv)
-        self.ev(st, "mcall", node, recv=recv, name=meth, args=tuple(args), kwargs=kwargs)
+        if isinstance(recv, View) and recv == View("self", ()) and self.cur_fn and self.cur_fn[-1].cls:
+            m = self._find_method(self.cur_fn[-1].module, self.cur_fn[-1].cls, meth)
+            if m is not None:
+                return self.call_user(m, [recv] + list(args), kwargs, st, node)
+        mev = self.ev(st, "mcall", node, recv=recv, name=meth, args=tuple(args), kwargs=kwargs)
         if isinstance(recv, View):
             if meth == "fill" and len(args) == 1:
                 self.store(st, View(recv.root, recv.idx), self.scalar(st, args[0]), node)
@@ -1254,7 +1267,23 @@ class Interp:
                 self.stored_roots.append(recv.root)
                 self.havoc_root(st, recv.root)
                 return [(st, self.fresh_root("ret", ("mcall", recv, meth, tuple(args))))]
-        return [(st, self.fresh_root("ret", ("mcall", recv, meth, tuple(args), kwargs)))]
+        mev.ret = self.fresh_root("ret", ("mcall", recv, meth, tuple(args), kwargs))
+        return [(st, mev.ret)]
+
+    def _find_method(self, module: str, cls: str, meth: str, depth: int = 0) -> Optional[FuncInfo]:
+        m = self.p.modules.get(module)
+        if m is None or depth > 5:
+            return None
+        f = m.classes.get(cls, {}).get(meth)
+        if f is not None:
+            return f
+        for b in m.class_bases.get(cls, []):
+            r = self.p.resolve(module, b)
+            if r and r[0] == "class":
+                f = self._find_method(r[1], r[2], meth, depth + 1)
+                if f is not None:
+                    return f
+        return None
 
 
 def _nonint(x: Aff) -> bool:
